@@ -104,7 +104,8 @@ def cases(tier, rng):
     doms = [('domain', (-200.0, 1300.0)), ('distance', (500.0, 700.0)), ('domain', (10.0, 5000.0))]
     strs = [(1.0, 1.5), (1.1, 1.3), (1.0, 1.0001)] if tier == 'quick' else [(1.0, 1.5), (1.1, 1.3), (1.0, 1.0001), (1.02, 2.0), (1.2, 1.2)]
     bufs = [dict(), dict(lambda_factor=0.5), dict(lambda_factor=0.6, max_buffer=20000.0), dict(lambda_from_center=True),
-            dict(lambda_from_center=True, lambda_factor=2.0, max_buffer=30000.0), dict(lambda_factor=3.0, max_buffer=5000.0)]
+            dict(lambda_from_center=True, lambda_factor=2.0, max_buffer=30000.0), dict(lambda_factor=3.0, max_buffer=5000.0),
+            dict(max_buffer=1.0), dict(lambda_from_center=True, lambda_factor=0.001)]          # (practically) no buffer to add
     coes = [True, False]
     lims = [None, 17.0, (5.0, 40.0)]
     k = 0
